@@ -151,7 +151,63 @@ func (v *Verifier) indexFunctions() {
 		if k != "" {
 			v.funcsByKey[k] = append(v.funcsByKey[k], f)
 		}
+		if nk := v.funcKeyByName(f); nk != "" && nk != k {
+			v.funcsByKey[nk] = append(v.funcsByKey[nk], f)
+		}
 	}
+}
+
+// closureVarName: the local variable a function literal is assigned to
+// (`min := func(...)`), or "" when it is used in place. Contracts may name a closure
+// Outer$min instead of Outer$3: the ordinal changes when another function literal is
+// added or removed, the name does not.
+func closureVarName(f *ssa.Function) string {
+	p := f.Parent()
+	if p == nil {
+		return ""
+	}
+	for _, b := range p.Blocks {
+		for _, ins := range b.Instrs {
+			st, ok := ins.(*ssa.Store)
+			if !ok {
+				continue
+			}
+			var fn *ssa.Function
+			switch x := st.Val.(type) {
+			case *ssa.MakeClosure:
+				fn, _ = x.Fn.(*ssa.Function)
+			case *ssa.Function:
+				fn = x
+			}
+			if fn != f {
+				continue
+			}
+			if a, ok := st.Addr.(*ssa.Alloc); ok && a.Comment != "" {
+				return a.Comment
+			}
+		}
+	}
+	return ""
+}
+
+// funcKeyByName: like funcKey, with closures named by the variable they are assigned to.
+func (v *Verifier) funcKeyByName(f *ssa.Function) string {
+	if f.Parent() == nil {
+		return v.funcKey(f)
+	}
+	pk := v.funcKeyByName(f.Parent())
+	if pk == "" {
+		return ""
+	}
+	if n := closureVarName(f); n != "" {
+		return pk + "$" + n
+	}
+	for i, af := range f.Parent().AnonFuncs {
+		if af == f {
+			return fmt.Sprintf("%s$%d", pk, i+1)
+		}
+	}
+	return ""
 }
 
 // funcKey: "<pkgpath>.<Recv.>Name" with closures as Parent$N; generic instances map to their origin.
@@ -187,6 +243,11 @@ func (v *Verifier) contractFor(f *ssa.Function) *FuncContract {
 	k := v.funcKey(f)
 	if k == "" {
 		return nil
+	}
+	if nk := v.funcKeyByName(f); nk != "" {
+		if c, ok := v.CS.Funcs[nk]; ok {
+			return c
+		}
 	}
 	if c, ok := v.CS.Funcs[k]; ok {
 		return c
